@@ -111,6 +111,7 @@ func pathItemOps(p spec.PathItem) []*spec.Operation {
 	rv = appendOp(rv, p.Delete)
 	rv = appendOp(rv, p.Head)
 	rv = appendOp(rv, p.Patch)
+	rv = appendOp(rv, p.Options)
 
 	return rv
 }
